@@ -322,8 +322,25 @@ fn run_case(case: &Value, rep: &mut Report) {
     }
     // ---- free run + oracle
     ctl::free_run();
-    for t in wthreads {
-        let _ = t.join();
+    // no blind joins: on a broken tree a waking thread can spin for ever inside `Remote::schedule` (full cross-thread
+    // queue, runtime asleep). Bounded wait; a waker that never returns is reported and its thread is left behind.
+    for (wi, t) in wthreads.into_iter().enumerate() {
+        let t0 = Instant::now();
+        while !t.is_finished() && t0.elapsed() < Duration::from_secs(10) {
+            std::thread::sleep(Duration::from_millis(2));
+        }
+        if t.is_finished() {
+            let _ = t.join();
+        } else {
+            LEAKED.fetch_add(1, Ordering::SeqCst);
+            rep.problem(
+                "hang",
+                json!({"site": "wakeup", "driver": driver, "mode": mode, "what": "waker-never-returns"}),
+                format!("waking thread w{} did not return from wake() within 10 s after the schedule (the runtime does not drain the cross-thread queue)", wi + 1),
+                case,
+                executed,
+            );
+        }
     }
     let t0 = Instant::now();
     let mut lost: Vec<usize> = vec![];
@@ -351,21 +368,31 @@ fn run_case(case: &Value, rep: &mut Report) {
     } else if let Some(d) = &diverged {
         rep.problem("mismatch", json!({"site": "wakeup", "driver": driver, "mode": mode}), d.clone(), case, executed);
     }
-    // ---- tear down: let the main future and the tasks finish
+    // ---- tear down: let the main future and the tasks finish. The wakes are made by a helper thread and with
+    // no harness lock held: on a broken tree `wake_by_ref` may never return (a full cross-thread queue that a
+    // sleeping runtime never drains), and the runtime thread takes the same slot lock inside `Probe::poll`.
     sh.exit.store(true, Ordering::SeqCst);
-    for t in 0..3 {
-        if let Some(w) = sh.wakers[t].lock().unwrap().clone() {
-            w.wake_by_ref();
-        }
+    let nudge_done = Arc::new(std::sync::atomic::AtomicBool::new(false));
+    {
+        let sh_n = sh.clone();
+        let done = nudge_done.clone();
+        std::thread::spawn(move || {
+            while !done.load(Ordering::SeqCst) {
+                for t in 0..3 {
+                    let w = sh_n.wakers[t].lock().unwrap().clone();
+                    if let Some(w) = w {
+                        w.wake_by_ref();
+                    }
+                }
+                std::thread::sleep(Duration::from_millis(20));
+            }
+        });
     }
     let t0 = Instant::now();
     while !rt_thread.is_finished() && t0.elapsed() < Duration::from_secs(10) {
-        // a runtime that lost the wake above would never leave: keep nudging it through its own waker
-        if let Some(w) = sh.wakers[0].lock().unwrap().clone() {
-            w.wake_by_ref();
-        }
-        std::thread::sleep(Duration::from_millis(20));
+        std::thread::sleep(Duration::from_millis(5));
     }
+    nudge_done.store(true, Ordering::SeqCst);
     if rt_thread.is_finished() {
         let _ = rt_thread.join();
     } else {
@@ -376,10 +403,14 @@ fn run_case(case: &Value, rep: &mut Report) {
             case,
             executed,
         );
-        // leak the thread; the process continues with the next case
+        // leak the threads (the helper may be spinning inside the code under test); the process continues with
+        // the next case, but not for ever
+        LEAKED.fetch_add(1, Ordering::SeqCst);
     }
     let _ = ctl::take_log();
 }
+
+static LEAKED: std::sync::atomic::AtomicUsize = std::sync::atomic::AtomicUsize::new(0);
 
 fn main() {
     if std::env::var("VERIF_SHOW_PANICS").is_err() {
@@ -387,6 +418,11 @@ fn main() {
     }
     let mut rep = Report::new();
     for case in cases_from_arg() {
+        if LEAKED.load(Ordering::SeqCst) >= 12 {
+            // a dozen runtimes never came back: every further case would add spinning threads; what was found is reported
+            rep.set("abandoned_after_leaked_runtimes", json!(rep.cases));
+            break;
+        }
         let r = std::panic::catch_unwind(std::panic::AssertUnwindSafe(|| run_case(&case, &mut rep)));
         if let Err(e) = r {
             rep.problem("panic", json!({"site": "wakeup", "action": "replay"}), format!("panic during replay: {}", panic_msg(e)), &case, 0);
